@@ -59,6 +59,13 @@ where
 
             match ready!(self.as_mut().project().inner.poll_next(cx)?) {
                 Some(r) => {
+                    // Reading the request may have processed cancellations and expirations
+                    // first, so re-check the limit, not counting the request that was just read.
+                    if self.as_mut().in_flight_requests().saturating_sub(1)
+                        < *self.as_mut().project().max_in_flight_requests
+                    {
+                        return Poll::Ready(Some(Ok(r)));
+                    }
                     let _entered = r.span.enter();
                     tracing::info!(
                         in_flight_requests = self.as_mut().in_flight_requests(),
